@@ -1,7 +1,157 @@
 import M3d.Basic
-/-! Line-protocol handler for C12. Core-only. (stub) -/
-namespace M3d.Drv.C12
+import M3d.Model.Partition
+import M3d.Gen.McTable
+/-! Line-protocol handler for C12. Core-only.
 
-def handleAll (ws : List String) : Option String := none
+Every mesh kind answers with the PLAIN model (sequential, unfiltered: `M3d.Marching.mcMesh/msMesh`,
+`dcActiveEdges`, `rasterPlain`) computed from the lattice labelling only — the trailing setting tag of
+the op line (GOMAXPROCS, filter, buffer size, …) is ignored, which is exactly what C12 demands
+(`M3d.C12.mesh_indep_of_workers_and_filter`, `dc_mesh_indep_of_bufsize`, `raster_indep_of_filter`).
+`split/pieces/scan/dcwin` validate the faithful models of the internal steps against hooks. -/
+namespace M3d.Drv.C12
+open M3d M3d.Marching M3d.Partition
+
+def bitsOf (s : String) : Array Bool := (s.toList.map (· == '1')).toArray
+
+/-! multiset hash shared with harness/cmd/c12 (FNV-1a over the integers of one item + a finaliser;
+items combined by wrapping sum and by xor) -/
+def fnvStep (h : UInt64) (v : Nat) : UInt64 := (h ^^^ v.toUInt64) * 1099511628211
+
+def finalize (h : UInt64) : UInt64 :=
+  let h := h ^^^ (h >>> 32)
+  let h := h * 0x9E3779B97F4A7C15
+  h ^^^ (h >>> 29)
+
+def mix (vals : List Nat) : UInt64 := finalize (vals.foldl fnvStep 14695981039346656037)
+
+def msetHash (items : List (List Nat)) : String :=
+  let (n, s, x) := items.foldl (fun (acc : Nat × UInt64 × UInt64) it =>
+    let m := mix it
+    (acc.1 + 1, acc.2.1 + m, acc.2.2 ^^^ m)) (0, 0, 0)
+  s!"n={n} s={hex64 s} x={hex64 x}"
+
+def seqHash (vals : List Nat) : String := hex64 (mix vals)
+
+def lab3 (b : Array Bool) (nx ny nz : Nat) : Nat → Nat → Nat → Bool := fun x y z =>
+  if x < nx && y < ny && z < nz then b.getD (x + nx * (y + ny * z)) false else false
+
+def lab2 (b : Array Bool) (nx ny : Nat) : Nat → Nat → Bool := fun x y =>
+  if x < nx && y < ny then b.getD (x + nx * y) false else false
+
+/-- `mc nx ny nz bits tag…` : `nx ny nz` lattice POINTS per axis (outer layer included). -/
+def handleMc (ws : List String) : Option String := do
+  let nx :: ny :: nz :: bits :: _ := ws | none
+  let nx ← nx.toNat?; let ny ← ny.toNat?; let nz ← nz.toNat?
+  let b := bitsOf bits
+  if b.size ≠ nx * ny * nz then none
+  let mesh := mcMesh Gen.mcTable (nx - 1) (ny - 1) (nz - 1) (lab3 b nx ny nz)
+  some (msetHash (mesh.map fun t =>
+    [t.1.1, t.1.2.1, t.1.2.2, t.2.1.1, t.2.1.2.1, t.2.1.2.2, t.2.2.1, t.2.2.2.1, t.2.2.2.2]))
+
+def handleMs (ws : List String) : Option String := do
+  let nx :: ny :: bits :: _ := ws | none
+  let nx ← nx.toNat?; let ny ← ny.toNat?
+  let b := bitsOf bits
+  if b.size ≠ nx * ny then none
+  let mesh := msMesh Gen.msTable (nx - 1) (ny - 1) (lab2 b nx ny)
+  some (msetHash (mesh.map fun s => [s.1.1, s.1.2, s.2.1, s.2.2]))
+
+/-- `dc nx ny nz bits tag…` : two faces per active lattice edge. -/
+def handleDc (ws : List String) : Option String := do
+  let nx :: ny :: nz :: bits :: _ := ws | none
+  let nx ← nx.toNat?; let ny ← ny.toNat?; let nz ← nz.toNat?
+  let b := bitsOf bits
+  if b.size ≠ nx * ny * nz then none
+  let es := dcActiveEdges (lab3 b nx ny nz) nx ny nz
+  let h := msetHash (es.map fun e => [e.1, e.2.1, e.2.2.1, e.2.2.2, 2])
+  some s!"faces={2 * es.length} {h}"
+
+/-- uint8(math.Floor((1 - cnt/total) * 255.999)) with the float operations of rasterize.go -/
+def shadeFloat (cnt total : Nat) : Nat :=
+  let px : Float := 1 - cnt.toFloat / total.toFloat
+  (Float.floor (px * 255.999)).toUInt8.toNat
+
+/-- `rast w h total c0,c1,… tag…` : per-pixel inside counts (row-major), plain render. -/
+def handleRast (ws : List String) : Option String := do
+  let w :: h :: total :: cs :: _ := ws | none
+  let w ← w.toNat?; let h ← h.toNat?; let total ← total.toNat?
+  let cnts ← (cs.splitOn ",").mapM (·.toNat?)
+  let a := cnts.toArray
+  if a.size ≠ w * h then none
+  let img := rasterPlain w h fun p => shadeFloat (a.getD (p.1 + w * p.2) 0) total
+  some (msetHash (img.map fun pv => [pv.1.1, pv.1.2, pv.2]))
+
+def showBlock (b : Block) : String := s!"{b.x0} {b.x1} {b.y0} {b.y1} {b.z0} {b.z1}"
+def showBlock2 (b : Block2) : String := s!"{b.x0} {b.x1} {b.y0} {b.y1}"
+
+def handleSplit (ws : List String) : Option String := do
+  let [x0, x1, y0, y1, z0, z1] ← parseNats ws | none
+  let b : Block := ⟨x0, x1, y0, y1, z0, z1⟩
+  some s!"vol={b.volume} {showBlock b.split.1} | {showBlock b.split.2}"
+
+def handleSplit2 (ws : List String) : Option String := do
+  let [x0, x1, y0, y1] ← parseNats ws | none
+  let b : Block2 := ⟨x0, x1, y0, y1⟩
+  some s!"area={b.area} {showBlock2 b.split.1} | {showBlock2 b.split.2}"
+
+/-- the test oracle shared with the harness -/
+def oracle (seed md : Nat) (b : Block) : Bool :=
+  md == 0 || (3 * b.x0 + 5 * b.x1 + 7 * b.y0 + 11 * b.y1 + 13 * b.z0 + 17 * b.z1 + seed) % md != 0
+
+def oracle2 (seed md : Nat) (b : Block2) : Bool :=
+  md == 0 || (3 * b.x0 + 5 * b.x1 + 7 * b.y0 + 11 * b.y1 + seed) % md != 0
+
+/-- `pieces minVol seed mod x0 x1 y0 y1 z0 z1` -/
+def handlePieces (ws : List String) : Option String := do
+  let [mv, seed, md, x0, x1, y0, y1, z0, z1] ← parseNats ws | none
+  if h : 0 < mv then
+    let b : Block := ⟨x0, x1, y0, y1, z0, z1⟩
+    let ls := pieces mv h (oracle seed md) b
+    let rs := rejected mv h (oracle seed md) b
+    some s!"n={ls.length} r={rs.length} h={seqHash (ls.flatMap fun l => [l.x0, l.x1, l.y0, l.y1, l.z0, l.z1])}"
+  else none
+
+def handlePieces2 (ws : List String) : Option String := do
+  let [mv, seed, md, x0, x1, y0, y1] ← parseNats ws | none
+  if h : 0 < mv then
+    let b : Block2 := ⟨x0, x1, y0, y1⟩
+    let ls := pieces2 mv h (oracle2 seed md) b
+    let rs := rejected2 mv h (oracle2 seed md) b
+    some s!"n={ls.length} r={rs.length} h={seqHash (ls.flatMap fun l => [l.x0, l.x1, l.y0, l.y1])}"
+  else none
+
+/-- `scan procs nz` -/
+def handleScan (ws : List String) : Option String := do
+  let [procs, nz] ← parseNats ws | none
+  let tr := scan procs nz
+  some (s!"n={tr.length}" ++ String.join (tr.map fun t => s!" {t.1}:{t.2.1}:{t.2.2}"))
+
+/-- `dcwin nx ny nz bufSize` : the windows of the layout with every edge active. -/
+def handleDcWin (ws : List String) : Option String := do
+  let [nx, ny, nz, buf] ← parseNats ws | none
+  let B := dcBufRows buf nx ny nz
+  if h : 2 < B then
+    let wins := dcRun nz B h (fun _ => true) dcInit
+    let strs := wins.map fun w =>
+      match w with
+      | [] => "empty"
+      | (g, l) :: _ => s!"{(g - l) / 2}:{g}:{w.length}"
+    some (s!"B={B}" ++ String.join (strs.map fun s => " " ++ s))
+  else none
+
+def handleAll (ws : List String) : Option String :=
+  match ws with
+  | "mc" :: rest => handleMc rest
+  | "ms" :: rest => handleMs rest
+  | "dc" :: rest => handleDc rest
+  | "rast" :: rest => handleRast rest
+  | "split" :: rest => handleSplit rest
+  | "split2" :: rest => handleSplit2 rest
+  | "pieces" :: rest => handlePieces rest
+  | "pieces2" :: rest => handlePieces2 rest
+  | "scan" :: rest => handleScan rest
+  | "dcwin" :: rest => handleDcWin rest
+  | "same" :: _ => some "same"
+  | _ => none
 
 end M3d.Drv.C12
